@@ -495,6 +495,53 @@ def parse_pattern(name):
     m = re.match(r'FAIL_PATTERN_(\d)D_(\d)P$', name)
     return (int(m.group(1)), int(m.group(2))) if m else None
 
+def classifier_by_value(P, r, enum, byval, bypat, ge, why):
+    """get_failure_pattern evaluated (consteval) on every list of up to four erasures over two data and two parity indexes, for
+    hd 3 and 4: the answer must be the enumerator that names the counts, GE_HD from the fourth erasure on"""
+    from .consteval import ConstEval
+    import itertools
+    gfp = P.fn('get_failure_pattern')
+    ik, ihd = P.field_index('xor_code_s', 'k'), P.field_index('xor_code_s', 'hd')
+    K = 5
+    CE = ConstEval(P, gfp.mod)
+    elems = [0, 1, 2, K, K + 1, K + 2]
+    nev, bad = 0, None
+    seen = {}
+    try:
+        for hd in (3, 4):
+            for n in range(0, 5):
+                for lst in itertools.permutations(elems, n):
+                    if n >= 3 and lst != tuple(sorted(lst)) and n == 4:
+                        continue
+                    objs = {'desc': {(ik,): K, (ihd,): hd}, 'L': {(i_,): v for i_, v in enumerate(lst + (-1,))}}
+                    def hook(ins, args, objs=objs):
+                        g_ = P.fns.get(ins.callee)
+                        if g_ is not None and g_.order:
+                            return ConstEval(P, g_.mod).run(g_, args, objs=objs, call_hook=hook)['ret']
+                        return None
+                    res = CE.run(gfp, [('obj', 'desc', ()), ('obj', 'L', ())], objs=objs, call_hook=hook)
+                    nev += 1
+                    nd, np_ = sum(1 for x in lst if x < K), sum(1 for x in lst if x >= K)
+                    want = bypat.get((nd, np_), ge) if n <= 3 else ge
+                    seen[(nd, np_)] = res['ret']
+                    if res['ret'] != want and bad is None:
+                        bad = (lst, hd, res['ret'], want)
+    except Exception as e2:
+        r.undecided('failure-pattern classifier', loc=gfp.mod.src, msg=f'{why}; not decidable by value either: {str(e2)[:100]}')
+        return
+    for name, v in sorted(enum.items(), key=lambda kv: kv[1]):
+        pp = parse_pattern(name)
+        if pp is None:
+            continue
+        inst = f'transition from {name}: +data -> {byval.get(bypat.get((pp[0] + 1, pp[1]), ge))}, +parity -> {byval.get(bypat.get((pp[0], pp[1] + 1), ge))}'
+        if bad is None:
+            r.ok(inst + f' (classifier decided as a value function on {nev} erasure lists)', func=gfp.name, loc=gfp.mod.src)
+        else:
+            lst, hd, got, want = bad
+            r.fail(inst, func=gfp.name, sig=f'classifier({list(lst)}) = {byval.get(got, got)}', loc=gfp.mod.src,
+                   msg=f'for the erasure list {list(lst)} (k = {K}, hd = {hd}) the classifier answers {byval.get(got, got)}, the counts name {byval.get(want, want)}')
+            break
+
 def machine_rule(P, r):
     """R05f: classifier transition function and decoder dispatch, decided by following concrete pattern values"""
     from . import oblig
@@ -504,95 +551,102 @@ def machine_rule(P, r):
     bypat = {parse_pattern(k): v for k, v in enum.items() if parse_pattern(k)}
     ge = enum['FAIL_PATTERN_GE_HD']
     # ---- transition function of get_failure_pattern: one loop iteration from pattern v with a data / parity erasure
-    gfp = P.fn('get_failure_pattern')
-    loops = natural_loops(gfp)
-    if len(loops) != 1:
-        raise AnalysisBroken('anchor vanished: get_failure_pattern is not a single loop over the missing list')
-    h, body = next(iter(loops.items()))
-    kvals = set()
-    for ins in gfp.insts():
-        if ins.op == 'load':
-            root, steps = access_path(P, gfp, ins.ops[0])
-            if fields_in_path(steps)[-1:] == [('xor_code_s', 'k')]:
-                kvals.add(ins.res)
-    # the loop-carried pattern: a phi in the header whose initial value is the enumerator 0D_0P
-    start_pat = bypat.get((0, 0))
-    phis = [p for p in h.insts if p.op == 'phi' and any(v == str(start_pat) for v, l in p.incoming if gfp.blocks[l] not in body)]
-    if len(phis) != 1:
-        raise AnalysisBroken('anchor vanished: loop-carried failure pattern of get_failure_pattern')
-    pat = phis[0]
-    # comparisons "missing_idxs[i] < k"
-    dtests = []
-    for ins in gfp.insts():
-        if ins.op == 'icmp':
-            a, b = strip_int_casts(gfp, ins.ops[0]), strip_int_casts(gfp, ins.ops[1])
-            ad, bd = gfp.defs.get(a), gfp.defs.get(b)
-            if b in kvals and ad is not None and ad.op == 'load' and ins.pred in ('slt', 'sge'):
-                dtests.append((ins, ins.pred == 'slt'))
-            elif a in kvals and bd is not None and bd.op == 'load' and ins.pred in ('sgt', 'sle'):
-                dtests.append((ins, ins.pred == 'sgt'))
-    if not dtests:
-        raise AnalysisBroken('anchor vanished: get_failure_pattern does not compare list elements with k')
-    # loop continuation test: element > -1 ; force "list not exhausted"
-    # (the sentinel test of the list, wherever the loop condition puts it: `elem > -1`, `pattern != GE_HD && elem >= 0`, ...)
-    from .oblig import _eval_icmp as _ev_s
-    conts = []
-    for c in gfp.insts():
-        if c.op != 'icmp' or c.bb not in body:
-            continue
-        a_, b_ = strip_int_casts(gfp, c.ops[0]), strip_int_casts(gfp, c.ops[1])
-        ad_, bd_ = gfp.defs.get(a_), gfp.defs.get(b_)
-        if ad_ is not None and ad_.op == 'load' and b_ in ('-1', '0') and a_ not in kvals | {pat.res}:
-            conts.append((c, int(_ev_s(c.pred, 5, int(b_), 32))))
-        elif bd_ is not None and bd_.op == 'load' and a_ in ('-1', '0') and b_ not in kvals | {pat.res}:
-            conts.append((c, int(_ev_s(c.pred, int(a_), 5, 32))))
-    if not conts:
-        conts = [(c, 1 if c.pred in ('sgt', 'sge', 'ne') else 0) for c in gfp.insts() if c.op == 'icmp' and c.bb is h]
-    first = None
-    for b in gfp.order:
-        if b is h:
-            first = h.insts[0]
-    rets = [i for i in gfp.insts() if i.op == 'ret']
-    hdvals = set()
-    for ins in gfp.insts():
-        if ins.op == 'load':
-            root, steps = access_path(P, gfp, ins.ops[0])
-            if fields_in_path(steps)[-1:] == [('xor_code_s', 'hd')]:
-                hdvals.add(ins.res)
-    for name, v in sorted(enum.items(), key=lambda kv: kv[1]):
-        pp = parse_pattern(name)
-        if pp is None:
-            continue
-        a, b_ = pp
-        exp = {True: bypat.get((a + 1, b_), ge), False: bypat.get((a, b_ + 1), ge)}
-        got = {}
-        for isdata in (True, False):
-            seed = {pat.res: v}
-            for hv in hdvals:
-                seed[hv] = 3          # every accepted shape has hd in {3, 4} (R05c); the classifier only compares it with a counter
+    def _by_structure():
+        gfp = P.fn('get_failure_pattern')
+        loops = natural_loops(gfp)
+        if len(loops) != 1:
+            raise AnalysisBroken('anchor vanished: get_failure_pattern is not a single loop over the missing list')
+        h, body = next(iter(loops.items()))
+        kvals = set()
+        for ins in gfp.insts():
+            if ins.op == 'load':
+                root, steps = access_path(P, gfp, ins.ops[0])
+                if fields_in_path(steps)[-1:] == [('xor_code_s', 'k')]:
+                    kvals.add(ins.res)
+        # the loop-carried pattern: a phi in the header whose initial value is the enumerator 0D_0P
+        start_pat = bypat.get((0, 0))
+        phis = [p for p in h.insts if p.op == 'phi' and any(v == str(start_pat) for v, l in p.incoming if gfp.blocks[l] not in body)]
+        if len(phis) != 1:
+            raise AnalysisBroken('anchor vanished: loop-carried failure pattern of get_failure_pattern')
+        pat = phis[0]
+        # comparisons "missing_idxs[i] < k"
+        dtests = []
+        for ins in gfp.insts():
+            if ins.op == 'icmp':
+                a, b = strip_int_casts(gfp, ins.ops[0]), strip_int_casts(gfp, ins.ops[1])
+                ad, bd = gfp.defs.get(a), gfp.defs.get(b)
+                if b in kvals and ad is not None and ad.op == 'load' and ins.pred in ('slt', 'sge'):
+                    dtests.append((ins, ins.pred == 'slt'))
+                elif a in kvals and bd is not None and bd.op == 'load' and ins.pred in ('sgt', 'sle'):
+                    dtests.append((ins, ins.pred == 'sgt'))
+        if not dtests:
+            raise AnalysisBroken('anchor vanished: get_failure_pattern does not compare list elements with k')
+        # loop continuation test: element > -1 ; force "list not exhausted"
+        # (the sentinel test of the list, wherever the loop condition puts it: `elem > -1`, `pattern != GE_HD && elem >= 0`, ...)
+        from .oblig import _eval_icmp as _ev_s
+        conts = []
+        for c in gfp.insts():
+            if c.op != 'icmp' or c.bb not in body:
+                continue
+            a_, b_ = strip_int_casts(gfp, c.ops[0]), strip_int_casts(gfp, c.ops[1])
+            ad_, bd_ = gfp.defs.get(a_), gfp.defs.get(b_)
+            if ad_ is not None and ad_.op == 'load' and b_ in ('-1', '0') and a_ not in kvals | {pat.res}:
+                conts.append((c, int(_ev_s(c.pred, 5, int(b_), 32))))
+            elif bd_ is not None and bd_.op == 'load' and a_ in ('-1', '0') and b_ not in kvals | {pat.res}:
+                conts.append((c, int(_ev_s(c.pred, int(a_), 5, 32))))
+        if not conts:
+            conts = [(c, 1 if c.pred in ('sgt', 'sge', 'ne') else 0) for c in gfp.insts() if c.op == 'icmp' and c.bb is h]
+        first = None
+        for b in gfp.order:
+            if b is h:
+                first = h.insts[0]
+        rets = [i for i in gfp.insts() if i.op == 'ret']
+        hdvals = set()
+        for ins in gfp.insts():
+            if ins.op == 'load':
+                root, steps = access_path(P, gfp, ins.ops[0])
+                if fields_in_path(steps)[-1:] == [('xor_code_s', 'hd')]:
+                    hdvals.add(ins.res)
+        for name, v in sorted(enum.items(), key=lambda kv: kv[1]):
+            pp = parse_pattern(name)
+            if pp is None:
+                continue
+            a, b_ = pp
+            exp = {True: bypat.get((a + 1, b_), ge), False: bypat.get((a, b_ + 1), ge)}
+            got = {}
+            for isdata in (True, False):
+                seed = {pat.res: v}
+                for hv in hdvals:
+                    seed[hv] = 3          # every accepted shape has hd in {3, 4} (R05c); the classifier only compares it with a counter
 
-            for ins, sense in dtests:
-                seed[ins.res] = int(isdata == sense)
-            for c, tv_ in conts:
-                seed[c.res] = tv_
-            outs = oblig.simulate(gfp, None, None, seed=seed, start=h.insts[len([x for x in h.insts if x.op == 'phi'])], watch=(h, pat.res))
-            vals = set()
-            for kind, val, tr in outs:
-                if kind == 'watch':
-                    vals.add(val)
-                elif kind == 'ret':
-                    vals.add(val)         # the loop left early (pattern GE_HD returns at once)
-            got[isdata] = vals
-        inst = f'transition from {name}: +data -> {byval.get(exp[True])}, +parity -> {byval.get(exp[False])}'
-        if any(None in g or not g for g in got.values()):
-            r.undecided(inst, loc=h.insts[-1].loc, msg=f'next pattern not determined: {got}')
-        elif got[True] == {exp[True]} and got[False] == {exp[False]}:
-            r.ok(inst, func=gfp.name, loc=h.insts[-1].loc)
-        else:
-            show = lambda s_: '/'.join(byval.get(x, str(x)) for x in sorted(s_))
-            r.fail(inst, func=gfp.name, sig=f'{name}: +data->{show(got[True])} +parity->{show(got[False])}', loc=h.insts[-1].loc,
-                   msg=f'from {name} the classifier goes to {show(got[True])} on a data erasure and {show(got[False])} on a parity erasure')
-    # ---- decoder dispatch
+                for ins, sense in dtests:
+                    seed[ins.res] = int(isdata == sense)
+                for c, tv_ in conts:
+                    seed[c.res] = tv_
+                outs = oblig.simulate(gfp, None, None, seed=seed, start=h.insts[len([x for x in h.insts if x.op == 'phi'])], watch=(h, pat.res))
+                vals = set()
+                for kind, val, tr in outs:
+                    if kind == 'watch':
+                        vals.add(val)
+                    elif kind == 'ret':
+                        vals.add(val)         # the loop left early (pattern GE_HD returns at once)
+                got[isdata] = vals
+            inst = f'transition from {name}: +data -> {byval.get(exp[True])}, +parity -> {byval.get(exp[False])}'
+            if any(None in g or not g for g in got.values()):
+                r.undecided(inst, loc=h.insts[-1].loc, msg=f'next pattern not determined: {got}')
+            elif got[True] == {exp[True]} and got[False] == {exp[False]}:
+                r.ok(inst, func=gfp.name, loc=h.insts[-1].loc)
+            else:
+                show = lambda s_: '/'.join(byval.get(x, str(x)) for x in sorted(s_))
+                r.fail(inst, func=gfp.name, sig=f'{name}: +data->{show(got[True])} +parity->{show(got[False])}', loc=h.insts[-1].loc,
+                       msg=f'from {name} the classifier goes to {show(got[True])} on a data erasure and {show(got[False])} on a parity erasure')
+        # ---- decoder dispatch
+    try:
+        _by_structure()
+    except AnalysisBroken as e_:
+        # the classifier is not written as one loop over a loop-carried pattern (counters and a look-up table, ...): decide it as a
+        # value function of the list instead
+        classifier_by_value(P, r, enum, byval, bypat, ge, str(e_))
     dec = P.fn('xor_hd_decode')
     pc = dispatch_call(dec)
     if pc is None:
